@@ -119,6 +119,7 @@ Definition get_effect : dec effect :=
    | 3%N => ret (ELoad n)
    | 4%N => ret (EMeta n)
    | 5%N => ret (EIssue n)
+   | 7%N => ret (ESelfWait n)
    | _ => fun _ => None
    end)%Z.
 
